@@ -10,7 +10,7 @@ fn parse(text: &str) -> Result<(SyntaxTree, Defines), Error> {
 
 const TRIVIA: &[&str] = &[" ", "  ", "\t", "\n", "\r\n", " \n ", "\x0c", " \x0c ", "/* c */", " /* a\n b */ ", " // c\n", "//\n",
     "\n`celldefine\n", "\n`endcelldefine\n", "\n`default_nettype wire\n", "\n`timescale 1ns/1ps\n", "\n`unconnected_drive pull0\n", "\n`nounconnected_drive\n",
-    "\n`line 7 \"f.v\" 0\n", "\n`define ZZ 1\n", "\n`undef ZZ\n", "\n`pragma foo\n"];
+    "\n`line 7 \"f.v\" 0\n", "\n`define ZZ 1\n", "\n`undef ZZ\n"];
 
 /// rebuild the text from tokens, choosing a trivia run for every gap that had whitespace (or, with `all`, for every gap)
 fn relayout(src: &str, tk: &[toks::Tok], rng: &mut Rng, drop_tok: Option<usize>, plain: bool) -> String {
@@ -26,6 +26,8 @@ fn relayout(src: &str, tk: &[toks::Tok], rng: &mut Rng, drop_tok: Option<usize>,
             let mut run = String::new();
             // an escaped identifier ends only at a blank: keep one first
             if tk[i - 1].escaped { run.push(' '); }
+            // a token ending in '/' directly followed by a comment would lex differently ('/' + '//' = '//' + '/')
+            if src[..tk[i - 1].off + tk[i - 1].len].ends_with('/') { run.push(' '); }
             for _ in 0..rng.range(1, 2) { run.push_str(rng.pick_str(TRIVIA)); }
             // a directive must stand on its own logical line end; ensure what follows a line comment / directive starts on a new line
             out.push_str(&run);
@@ -87,8 +89,7 @@ pub fn main(args: &[String]) {
             Err(m) => {
                 rep.case(src.as_bytes(), true);
                 let (what, detail) = match m.split_once("\n--- layout A:") { Some((w, d)) => (w.to_string(), d.to_string()), None => (m.clone(), String::new()) };
-                let ff = detail.contains('\x0c');
-                if ff && what.contains("rejected after re-layout") { rep.known("form-feed-not-whitespace", &what, &detail, ""); } else { rep.violation(&what, &detail, ""); }
+                rep.violation(&what, &detail, "");
             }
         }
     }
